@@ -446,12 +446,29 @@ func ruleLimiter(c *Check, rule string) {
 			}
 		}
 		if strings.HasPrefix(p.End, "backedge:") {
+			nsend := 0
 			for _, e := range p.Events {
 				if e.Kind == "send" {
-					for _, cd := range p.Conds() {
-						if cd.Atom.Kind == "cmp" && strings.HasPrefix(cd.Atom.A, "loop:i@") && (cd.Atom.B == limit || cd.Atom.B == "const:1") && p.State.RelOf("int", cd.Atom.A, cd.Atom.B) == LT {
-							okSend = true
-						}
+					nsend++
+				}
+			}
+			// a counting loop 0..L-1 (classic or rotated form) with one send per cycle
+			for _, rv := range p.Rets {
+				eq := strings.Index(rv, "=(loop:")
+				if eq < 0 || !strings.HasSuffix(rv, " + const:1)") || nsend != 1 {
+					continue
+				}
+				ctr := strings.TrimSuffix(rv[eq+2:], " + const:1)")
+				if phiInitOf(fn, rv[:eq]) != "const:0" {
+					continue
+				}
+				for _, cd := range p.Conds() {
+					a := cd.Atom
+					if a.Kind != "cmp" || (a.B != limit && a.B != "const:1") {
+						continue
+					}
+					if (a.A == ctr || a.A == "("+ctr+" + const:1)") && p.State.RelOf("int", a.A, a.B) == LT {
+						okSend = true
 					}
 				}
 			}
